@@ -593,6 +593,19 @@ impl<'a> Norm<'a> {
         }
     }
 
+    /// N10: `Err(X)?`  ==>  `return Err((X).into_verr())`  (an error raised on the spot and propagated by `?`)
+    fn n10_err_try(&mut self, e: &mut Expr) {
+        if let Expr::Try(t) = e {
+            if let Expr::Call(c) = &*t.expr {
+                if c.func.to_token_stream().to_string() == "Err" && c.args.len() == 1 {
+                    let inner = &c.args[0];
+                    *e = parse_quote!(return Err((#inner).into_verr()));
+                    self.stats.bump("N10.err_try");
+                }
+            }
+        }
+    }
+
     /// N10: `Err(X.into())` ==> `Err((X).into_verr())` (conversion into the unit's one error type)
     fn n10_err_into(&mut self, e: &mut Expr) {
         if let Expr::Call(c) = e {
@@ -1084,6 +1097,7 @@ impl<'a> VisitMut for Norm<'a> {
         self.n9_strviews(e);
         self.n17_nexton(e);
         self.n10_err_into(e);
+        self.n10_err_try(e);
         self.n9_hex(e);
     }
 
